@@ -108,9 +108,9 @@ def spec_for(d):
         return lambda xs: SP.ema(d[1], xs, d[2])
     if name == "AlmaCustom" and d[-1] == E:
         return lambda xs: SP.alma(d[1], xs, d[2], d[3])
-    if name == "Eft" and d[2] == E and d[3][0] in ("Echo", "Ema", "Sma") and d[3][-1] == E:
+    if name == "Eft" and d[2] == E and d[3][0] in ("Echo", "Ema", "Sma", "Ss") and d[3][-1] == E:
         return lambda xs: SP.eft(d[1], d[3], xs)
-    if name == "Pfe" and d[2] == E and d[3][0] in ("Echo", "Ema", "Sma") and d[3][-1] == E:
+    if name == "Pfe" and d[2] == E and d[3][0] in ("Echo", "Ema", "Sma", "Ss") and d[3][-1] == E:
         return lambda xs: SP.pfe(d[1], d[3], xs)
     if name in ("WRolling", "WRollingMean", "Drawdown", "LnReturn") and d[-1] == E:
         f = {"WRolling": SP.wrolling, "WRollingMean": SP.wrolling_mean, "Drawdown": SP.drawdown, "LnReturn": SP.lnreturn}[name]
@@ -694,4 +694,32 @@ def c16(groups, tol=None):
                             % (d_sexpr(cf.desc), float(worst[2]), float(worst[3]), worst[1] + 1, float(worst[0]), float(t),
                                " after a volatile stretch followed by %s identical values" % cf.meta.get("flat_len") if kind == "flat" else ""),
                             [cf] if len(cf.ops) < 120 else [], desc=d_sexpr(cf.desc)))
+    return out
+
+
+def c12_pow2(fpairs):
+    """f64: x -> 2^k x must leave scale-free views bit-identical and scale the others by exactly 2^k"""
+    out = []
+    for (c1, c2, (kk, inv)) in fpairs:
+        o1, o2 = c1.outs(), c2.outs()
+        name = c1.desc[0]
+        n = c1.desc[1] if len(c1.desc) > 1 and isinstance(c1.desc[1], int) else 1
+        xs = c1.inputs()
+        for t, (a, b) in enumerate(zip(o1, o2)):
+            if isinstance(a, str) or isinstance(b, str):
+                if a != b:
+                    out.append(viol("c12-pow2-" + name.lower(), "%s: failure (%s / %s) at step %d only on one of x and 2^%d x [f64]" % (d_sexpr(c1.desc), a, b, t + 1, kk), [c1, c2], step=t + 1))
+                break
+            if (a is None) != (b is None):
+                out.append(viol("c12-pow2-" + name.lower(), "%s: readiness differs between x and 2^%d x at step %d [f64]" % (d_sexpr(c1.desc), kk, t + 1), [c1, c2], step=t + 1))
+                break
+            if a is None:
+                continue
+            if name == "Vst" and len(set(xs[max(0, t + 1 - n): t + 1])) <= 1:
+                continue      # W2: flat window
+            want = a if inv else bits_of_f64(f64_of_bits(a) * 2.0 ** kk)
+            if want != b and not (f64_of_bits(want) == 0.0 and f64_of_bits(b) == 0.0):
+                out.append(viol("c12-pow2-" + name.lower(), "%s at step %d: output %r for x, %r for 2^%d x (f64; expected %s)"
+                                % (d_sexpr(c1.desc), t + 1, f64_of_bits(a), f64_of_bits(b), kk, "bit-identical" if inv else "scaled by exactly 2^%d" % kk), [c1, c2], step=t + 1))
+                break
     return out
